@@ -278,3 +278,22 @@ mod test {
     Ok(())
   }
 }
+
+#[cfg(feature = "verif-hooks")]
+pub mod verif_hooks {
+  use super::*;
+  impl<L: Language> ReferentRule<L> {
+    pub fn verif_rule_id(&self) -> &str {
+      &self.rule_id
+    }
+  }
+  impl<L: Language> RuleRegistration<L> {
+    /// local utility rules and global rules as registered right now
+    pub fn verif_locals(&self) -> &HashMap<String, Rule<L>> {
+      &self.local.0
+    }
+    pub fn verif_globals(&self) -> &HashMap<String, RuleCore<L>> {
+      &self.global.0
+    }
+  }
+}
